@@ -209,40 +209,51 @@ func refMerge(vals []any, force bool) (any, error) {
 		}
 	}
 	if t.Kind() == reflect.Map {
+		// the entries of all chunks grouped the way a Go map groups keys: by ==. -0 and +0 are one key; a key
+		// that is not equal to itself (NaN inside) is never found again, so every such entry is a group of
+		// its own (keyed_maps_test.go)
 		out := reflect.MakeMap(t)
-		per := map[string][]any{}
-		keyOf := map[string]reflect.Value{}
-		var order []string
+		type group struct {
+			key  reflect.Value
+			vals []any
+		}
+		var groups []*group
+		index := reflect.MakeMap(reflect.MapOf(t.Key(), reflect.TypeOf(0)))
 		for _, v := range vals {
 			rv := reflect.ValueOf(v)
 			it := rv.MapRange()
 			for it.Next() {
-				var kb strings.Builder
-				canonV(&kb, it.Key())
-				k := kb.String()
-				if _, ok := per[k]; !ok {
-					order = append(order, k)
-					keyOf[k] = it.Key()
+				var g *group
+				if at := index.MapIndex(it.Key()); at.IsValid() {
+					g = groups[at.Int()]
+				} else {
+					g = &group{key: it.Key()}
+					index.SetMapIndex(it.Key(), reflect.ValueOf(len(groups)))
+					groups = append(groups, g)
 				}
-				per[k] = append(per[k], it.Value().Interface())
+				g.vals = append(g.vals, it.Value().Interface())
 			}
 		}
-		sort.Strings(order)
 		var undefined bool
-		for _, k := range order {
-			m, err := refMerge(per[k], false)
+		var failed error
+		for _, g := range groups {
+			m, err := refMerge(g.vals, false)
 			if err == errUndefined {
 				undefined = true
 				continue
 			}
 			if err != nil {
-				return nil, err
+				failed = err
+				continue
 			}
 			if m == nil {
-				out.SetMapIndex(keyOf[k], reflect.Zero(t.Elem()))
+				out.SetMapIndex(g.key, reflect.Zero(t.Elem()))
 			} else {
-				out.SetMapIndex(keyOf[k], reflect.ValueOf(m))
+				out.SetMapIndex(g.key, reflect.ValueOf(m))
 			}
+		}
+		if failed != nil {
+			return nil, failed
 		}
 		if undefined {
 			return nil, errUndefined
